@@ -55,7 +55,10 @@ static char* token_at(const char* nfkd, int p, int* ntok) {
     return r;
 }
 
+/* reduced-scale runs (second compiler) take a stripe of the sweep; the full-scale run enumerates everything */
+static bool striped_out(uint64_t idx) { uint64_t k = pv.scale_pct >= 100 ? 1 : 100 / (pv.scale_pct ? pv.scale_pct : 1); return k > 1 && idx % k != pv.seed % k; }
 static void run_encode(uint64_t idx, pv_rng* rng) {
+    if (striped_out(idx)) return;
     int l, p, blk; decomp(idx, &l, &p, &blk);
     pv_mlang* L = &pv_langs[l];
     if (!L->lib) return;
@@ -95,6 +98,7 @@ static void run_encode(uint64_t idx, pv_rng* rng) {
 
 /* ---------------------------------------------------------------- decode sweep */
 static void run_decode(uint64_t idx, pv_rng* rng) {
+    if (striped_out(idx)) return;
     int l, p, blk; decomp(idx, &l, &p, &blk);
     pv_mlang* L = &pv_langs[l];
     if (!L->lib) return;
